@@ -1,0 +1,218 @@
+//go:build verif
+
+// Machine-checked contracts (comment-only; compiled only under the build tag "verif").
+// C20: conversion between v1alpha1 and the hub version v1beta1.
+package v1alpha1
+
+import "github.com/openkruise/rollouts/api/v1beta1"
+
+//@ define sameHeaders(a, b) = len(a) == len(b) && (forall k :: 0 <= k && k < len(a) ==> a[k].Name == b[k].Name && a[k].Value == b[k].Value && a[k].Type == b[k].Type)
+
+//@ func ConversionToV1beta1TrafficRoutingStrategy
+//@ props C20
+//@ ensures framed: unchangedOutside()
+//@ loop 1 invariant framed: unchangedOutside()
+//@ loop 1 invariant appended_fresh: cap(dst.Matches) == 0 || fresh(dst.Matches)
+//@ ensures weight_as_percent: (src.Weight == nil) == (result.Traffic == nil) && (src.Weight != nil ==> *result.Traffic == pct(*src.Weight))
+//@ ensures modifier_kept: result.RequestHeaderModifier == src.RequestHeaderModifier
+//@ ensures matches_kept: len(result.Matches) == len(src.Matches) && (forall j :: 0 <= j && j < len(src.Matches) ==> sameHeaders(result.Matches[j].Headers, src.Matches[j].Headers))
+//@ loop 1 invariant -1 <= rangeindex && rangeindex < len(src.Matches) && len(dst.Matches) == rangeindex + 1
+//@ loop 1 invariant forall j :: 0 <= j && j <= rangeindex ==> sameHeaders(dst.Matches[j].Headers, src.Matches[j].Headers)
+
+// v1beta1 "w%" traffic reads back as weight w (other spellings read back as 0: v1alpha1 cannot express them)
+//@ func ConversionToV1alpha1TrafficRoutingStrategy
+//@ props C20
+//@ ensures framed: unchangedOutside()
+//@ loop 1 invariant framed: unchangedOutside()
+//@ loop 1 invariant appended_fresh: cap(dst.Matches) == 0 || fresh(dst.Matches)
+//@ ensures percent_as_weight: (src.Traffic == nil) == (result.Weight == nil) && (src.Traffic != nil && isPct(*src.Traffic) ==> *result.Weight == as(pctNum(*src.Traffic), "int32"))
+//@ ensures modifier_kept: result.RequestHeaderModifier == src.RequestHeaderModifier
+//@ ensures matches_kept: len(result.Matches) == len(src.Matches) && (forall j :: 0 <= j && j < len(src.Matches) ==> sameHeaders(result.Matches[j].Headers, src.Matches[j].Headers))
+//@ loop 1 invariant -1 <= rangeindex && rangeindex < len(src.Matches) && len(dst.Matches) == rangeindex + 1
+//@ loop 1 invariant forall j :: 0 <= j && j <= rangeindex ==> sameHeaders(dst.Matches[j].Headers, src.Matches[j].Headers)
+//@ loop 1 invariant (src.Traffic == nil) == (dst.Weight == nil) && (src.Traffic != nil && isPct(*src.Traffic) ==> *dst.Weight == as(pctNum(*src.Traffic), "int32"))
+
+//@ define sameIngress(a, b) = (a == nil) == (b == nil) && (a != nil ==> a.ClassType == b.ClassType && a.Name == b.Name)
+//@ define sameGateway(a, b) = (a == nil) == (b == nil) && (a != nil ==> a.HTTPRouteName == b.HTTPRouteName)
+//@ define sameRefs(a, b) = len(a) == len(b) && (forall k :: 0 <= k && k < len(a) ==> a[k].APIVersion == b[k].APIVersion && a[k].Kind == b[k].Kind && a[k].Name == b[k].Name)
+//@ define sameRoutingScalars(a, b) = a.Service == b.Service && a.GracePeriodSeconds == b.GracePeriodSeconds && sameIngress(a.Ingress, b.Ingress) && sameGateway(a.Gateway, b.Gateway)
+//@ define sameRouting(a, b) = sameRoutingScalars(a, b) && sameRefs(a.CustomNetworkRefs, b.CustomNetworkRefs)
+
+//@ func ConversionToV1beta1TrafficRoutingRef
+//@ props C20
+//@ ensures framed: unchangedOutside()
+//@ loop 1 invariant framed: unchangedOutside()
+//@ loop 1 invariant appended_fresh: cap(dst.CustomNetworkRefs) == 0 || fresh(dst.CustomNetworkRefs)
+//@ ensures same: sameRouting(result, src)
+//@ loop 1 invariant -1 <= rangeindex && rangeindex < len(src.CustomNetworkRefs) && len(dst.CustomNetworkRefs) == rangeindex + 1
+//@ loop 1 invariant forall k :: 0 <= k && k <= rangeindex ==> dst.CustomNetworkRefs[k].APIVersion == src.CustomNetworkRefs[k].APIVersion && dst.CustomNetworkRefs[k].Kind == src.CustomNetworkRefs[k].Kind && dst.CustomNetworkRefs[k].Name == src.CustomNetworkRefs[k].Name
+//@ loop 1 invariant dst.Service == src.Service && dst.GracePeriodSeconds == src.GracePeriodSeconds && sameIngress(dst.Ingress, src.Ingress) && sameGateway(dst.Gateway, src.Gateway)
+
+//@ func ConversionToV1alpha1TrafficRoutingRef
+//@ props C20
+//@ ensures framed: unchangedOutside()
+//@ loop 1 invariant framed: unchangedOutside()
+//@ loop 1 invariant appended_fresh: cap(dst.CustomNetworkRefs) == 0 || fresh(dst.CustomNetworkRefs)
+//@ ensures same: sameRouting(result, src)
+//@ loop 1 invariant -1 <= rangeindex && rangeindex < len(src.CustomNetworkRefs) && len(dst.CustomNetworkRefs) == rangeindex + 1
+//@ loop 1 invariant forall k :: 0 <= k && k <= rangeindex ==> dst.CustomNetworkRefs[k].APIVersion == src.CustomNetworkRefs[k].APIVersion && dst.CustomNetworkRefs[k].Kind == src.CustomNetworkRefs[k].Kind && dst.CustomNetworkRefs[k].Name == src.CustomNetworkRefs[k].Name
+//@ loop 1 invariant dst.Service == src.Service && dst.GracePeriodSeconds == src.GracePeriodSeconds && sameIngress(dst.Ingress, src.Ingress) && sameGateway(dst.Gateway, src.Gateway)
+
+// ---------- Rollout: v1alpha1 -> hub ----------
+//@ define hubRollout(d) = as(iref(d), "*v1beta1.Rollout")
+//@ define a2bReplicas(h, s) = (s.Replicas != nil ==> h.Replicas == s.Replicas) && (s.Replicas == nil && s.Weight != nil ==> h.Replicas != nil && h.Replicas.Type == 1 && h.Replicas.StrVal == pct(*s.Weight)) && (s.Replicas == nil && s.Weight == nil ==> h.Replicas == nil)
+//@ define a2bTraffic(h, s) = (s.Weight == nil) == (h.Traffic == nil) && (s.Weight != nil ==> *h.Traffic == pct(*s.Weight))
+//@ define a2bMatches(h, s) = len(h.Matches) == len(s.Matches) && (forall m :: 0 <= m && m < len(s.Matches) ==> sameHeaders(h.Matches[m].Headers, s.Matches[m].Headers))
+//@ define a2bStep(hs, ss, j) = a2bReplicas(hs[j], ss[j]) && a2bTraffic(hs[j], ss[j]) && hs[j].Pause.Duration == ss[j].Pause.Duration && hs[j].RequestHeaderModifier == ss[j].RequestHeaderModifier && a2bMatches(hs[j], ss[j])
+
+// Assumption (stated as a precondition, established for admitted objects by the validating webhook, see the C09 contracts
+// validateV1alpha1RolloutSpec*): the v1alpha1 object has a workloadRef and a canary strategy. Without it ConvertTo panics.
+//@ func (*Rollout).ConvertTo
+//@ props C20
+//@ requires src != nil && dst.tag == typeid("*v1beta1.Rollout") && iref(dst) != nil
+//@ requires admitted: src.Spec.ObjectRef.WorkloadRef != nil && src.Spec.Strategy.Canary != nil
+//@ ensures never_fails: result == nil
+//@ ensures workload_ref: hubRollout(dst).Spec.WorkloadRef.APIVersion == src.Spec.ObjectRef.WorkloadRef.APIVersion && hubRollout(dst).Spec.WorkloadRef.Kind == src.Spec.ObjectRef.WorkloadRef.Kind && hubRollout(dst).Spec.WorkloadRef.Name == src.Spec.ObjectRef.WorkloadRef.Name
+//@ ensures canary_strategy: hubRollout(dst).Spec.Strategy.Canary != nil && hubRollout(dst).Spec.Strategy.BlueGreen == nil && hubRollout(dst).Spec.Strategy.Paused == src.Spec.Strategy.Paused && hubRollout(dst).Spec.Disabled == src.Spec.Disabled
+//@ ensures steps: len(hubRollout(dst).Spec.Strategy.Canary.Steps) == len(src.Spec.Strategy.Canary.Steps) && (forall j :: 0 <= j && j < len(src.Spec.Strategy.Canary.Steps) ==> a2bStep(hubRollout(dst).Spec.Strategy.Canary.Steps, src.Spec.Strategy.Canary.Steps, j))
+//@ ensures routings: len(hubRollout(dst).Spec.Strategy.Canary.TrafficRoutings) == len(src.Spec.Strategy.Canary.TrafficRoutings) && (forall j :: 0 <= j && j < len(src.Spec.Strategy.Canary.TrafficRoutings) ==> sameRouting(hubRollout(dst).Spec.Strategy.Canary.TrafficRoutings[j], src.Spec.Strategy.Canary.TrafficRoutings[j]))
+//@ ensures style: hubRollout(dst).Spec.Strategy.Canary.EnableExtraWorkloadForCanary == (toLower(src.Annotations["rollouts.kruise.io/rolling-style"]) != toLower("Partition"))
+//@ ensures routing_ref: src.Annotations["rollouts.kruise.io/trafficrouting"] != "" ==> hubRollout(dst).Spec.Strategy.Canary.TrafficRoutingRef == src.Annotations["rollouts.kruise.io/trafficrouting"]
+//@ ensures failure_threshold: hubRollout(dst).Spec.Strategy.Canary.FailureThreshold == src.Spec.Strategy.Canary.FailureThreshold
+//@ ensures status_top: hubRollout(dst).Status.ObservedGeneration == src.Status.ObservedGeneration && hubRollout(dst).Status.Phase == src.Status.Phase && hubRollout(dst).Status.Message == src.Status.Message
+//@ ensures status_cursor: (hubRollout(dst).Status.CanaryStatus == nil) == (src.Status.CanaryStatus == nil) && hubRollout(dst).Status.BlueGreenStatus == nil && (src.Status.CanaryStatus != nil ==> hubRollout(dst).Status.CanaryStatus.CurrentStepIndex == src.Status.CanaryStatus.CurrentStepIndex && hubRollout(dst).Status.CanaryStatus.NextStepIndex == src.Status.CanaryStatus.NextStepIndex && hubRollout(dst).Status.CanaryStatus.CurrentStepState == src.Status.CanaryStatus.CurrentStepState && hubRollout(dst).Status.CanaryStatus.FinalisingStep == src.Status.CanaryStatus.FinalisingStep && hubRollout(dst).Status.CanaryStatus.CanaryRevision == src.Status.CanaryStatus.CanaryRevision && hubRollout(dst).Status.CanaryStatus.StableRevision == src.Status.CanaryStatus.StableRevision && hubRollout(dst).Status.CanaryStatus.PodTemplateHash == src.Status.CanaryStatus.PodTemplateHash && hubRollout(dst).Status.CanaryStatus.ObservedRolloutID == src.Status.CanaryStatus.ObservedRolloutID && hubRollout(dst).Status.CanaryStatus.RolloutHash == src.Status.CanaryStatus.RolloutHash && hubRollout(dst).Status.CanaryStatus.CanaryReplicas == src.Status.CanaryStatus.CanaryReplicas && hubRollout(dst).Status.CanaryStatus.CanaryReadyReplicas == src.Status.CanaryStatus.CanaryReadyReplicas && hubRollout(dst).Status.CanaryStatus.ObservedWorkloadGeneration == src.Status.CanaryStatus.ObservedWorkloadGeneration && hubRollout(dst).Status.CanaryStatus.LastUpdateTime == src.Status.CanaryStatus.LastUpdateTime)
+//@ ensures conditions: len(hubRollout(dst).Status.Conditions) == len(src.Status.Conditions) && (forall j :: 0 <= j && j < len(src.Status.Conditions) ==> hubRollout(dst).Status.Conditions[j].Type == src.Status.Conditions[j].Type && hubRollout(dst).Status.Conditions[j].Status == src.Status.Conditions[j].Status && hubRollout(dst).Status.Conditions[j].Reason == src.Status.Conditions[j].Reason && hubRollout(dst).Status.Conditions[j].Message == src.Status.Conditions[j].Message)
+//@ ensures framed: unchangedOutside(hubRollout(dst))
+//@ loop 1 invariant workload_ref_kept: obj.Spec.WorkloadRef.APIVersion == src.Spec.ObjectRef.WorkloadRef.APIVersion && obj.Spec.WorkloadRef.Kind == src.Spec.ObjectRef.WorkloadRef.Kind && obj.Spec.WorkloadRef.Name == src.Spec.ObjectRef.WorkloadRef.Name
+//@ loop 2 invariant workload_ref_kept: obj.Spec.WorkloadRef.APIVersion == src.Spec.ObjectRef.WorkloadRef.APIVersion && obj.Spec.WorkloadRef.Kind == src.Spec.ObjectRef.WorkloadRef.Kind && obj.Spec.WorkloadRef.Name == src.Spec.ObjectRef.WorkloadRef.Name
+//@ loop 3 invariant workload_ref_kept: obj.Spec.WorkloadRef.APIVersion == src.Spec.ObjectRef.WorkloadRef.APIVersion && obj.Spec.WorkloadRef.Kind == src.Spec.ObjectRef.WorkloadRef.Kind && obj.Spec.WorkloadRef.Name == src.Spec.ObjectRef.WorkloadRef.Name
+//@ loop 4 invariant workload_ref_kept: obj.Spec.WorkloadRef.APIVersion == src.Spec.ObjectRef.WorkloadRef.APIVersion && obj.Spec.WorkloadRef.Kind == src.Spec.ObjectRef.WorkloadRef.Kind && obj.Spec.WorkloadRef.Name == src.Spec.ObjectRef.WorkloadRef.Name
+//@ loop 5 invariant workload_ref_kept: obj.Spec.WorkloadRef.APIVersion == src.Spec.ObjectRef.WorkloadRef.APIVersion && obj.Spec.WorkloadRef.Kind == src.Spec.ObjectRef.WorkloadRef.Kind && obj.Spec.WorkloadRef.Name == src.Spec.ObjectRef.WorkloadRef.Name
+//@ loop 1 invariant framed: unchangedOutside(obj)
+//@ loop 2 invariant framed: unchangedOutside(obj)
+//@ loop 3 invariant framed: unchangedOutside(obj)
+//@ loop 4 invariant framed: unchangedOutside(obj)
+//@ loop 5 invariant framed: unchangedOutside(obj)
+//@ loop 1 invariant appended_fresh: fresh(obj.Spec.Strategy.Canary) && (cap(obj.Spec.Strategy.Canary.Steps) == 0 || fresh(obj.Spec.Strategy.Canary.Steps))
+//@ loop 2 invariant appended_fresh: fresh(obj.Spec.Strategy.Canary) && (cap(obj.Spec.Strategy.Canary.TrafficRoutings) == 0 || fresh(obj.Spec.Strategy.Canary.TrafficRoutings))
+//@ loop 5 invariant appended_fresh: cap(obj.Status.Conditions) == 0 || fresh(obj.Status.Conditions)
+//@ loop 1 invariant range: -1 <= rangeindex && rangeindex < len(srcSpec.Strategy.Canary.Steps) && len(obj.Spec.Strategy.Canary.Steps) == rangeindex + 1 && obj.Spec.Strategy.Canary != nil
+//@ loop 2 invariant range: -1 <= rangeindex$2 && rangeindex$2 < len(srcSpec.Strategy.Canary.TrafficRoutings) && len(obj.Spec.Strategy.Canary.TrafficRoutings) == rangeindex$2 + 1 && obj.Spec.Strategy.Canary != nil
+//@ loop 2 invariant converted_scalars: forall j :: 0 <= j && j <= rangeindex$2 ==> sameRoutingScalars(obj.Spec.Strategy.Canary.TrafficRoutings[j], srcSpec.Strategy.Canary.TrafficRoutings[j])
+//@ loop 2 invariant converted_refs_len: forall j :: 0 <= j && j <= rangeindex$2 ==> len(obj.Spec.Strategy.Canary.TrafficRoutings[j].CustomNetworkRefs) == len(srcSpec.Strategy.Canary.TrafficRoutings[j].CustomNetworkRefs)
+//@ loop 2 invariant converted_refs: forall j :: 0 <= j && j <= rangeindex$2 ==> (forall k :: 0 <= k && k < len(srcSpec.Strategy.Canary.TrafficRoutings[j].CustomNetworkRefs) ==> obj.Spec.Strategy.Canary.TrafficRoutings[j].CustomNetworkRefs[k].APIVersion == srcSpec.Strategy.Canary.TrafficRoutings[j].CustomNetworkRefs[k].APIVersion && obj.Spec.Strategy.Canary.TrafficRoutings[j].CustomNetworkRefs[k].Kind == srcSpec.Strategy.Canary.TrafficRoutings[j].CustomNetworkRefs[k].Kind && obj.Spec.Strategy.Canary.TrafficRoutings[j].CustomNetworkRefs[k].Name == srcSpec.Strategy.Canary.TrafficRoutings[j].CustomNetworkRefs[k].Name)
+//@ loop 1 invariant converted_replicas: forall j :: 0 <= j && j <= rangeindex ==> a2bReplicas(obj.Spec.Strategy.Canary.Steps[j], srcSpec.Strategy.Canary.Steps[j]) && obj.Spec.Strategy.Canary.Steps[j].Pause.Duration == srcSpec.Strategy.Canary.Steps[j].Pause.Duration && obj.Spec.Strategy.Canary.Steps[j].RequestHeaderModifier == srcSpec.Strategy.Canary.Steps[j].RequestHeaderModifier
+//@ loop 1 invariant converted_traffic: forall j :: 0 <= j && j <= rangeindex ==> a2bTraffic(obj.Spec.Strategy.Canary.Steps[j], srcSpec.Strategy.Canary.Steps[j])
+//@ loop 1 invariant converted_matches: forall j :: 0 <= j && j <= rangeindex ==> a2bMatches(obj.Spec.Strategy.Canary.Steps[j], srcSpec.Strategy.Canary.Steps[j])
+//@ loop 5 invariant range: -1 <= rangeindex$3 && rangeindex$3 < len(src.Status.Conditions) && len(obj.Status.Conditions) == rangeindex$3 + 1
+//@ loop 5 invariant converted: forall j :: 0 <= j && j <= rangeindex$3 ==> obj.Status.Conditions[j].Type == src.Status.Conditions[j].Type && obj.Status.Conditions[j].Status == src.Status.Conditions[j].Status && obj.Status.Conditions[j].Reason == src.Status.Conditions[j].Reason && obj.Status.Conditions[j].Message == src.Status.Conditions[j].Message
+
+// ---------- Rollout: hub -> v1alpha1 ----------
+//@ define b2aTraffic(a, h) = (h.Traffic == nil) == (a.Weight == nil) && (h.Traffic != nil && isPct(*h.Traffic) ==> *a.Weight == as(pctNum(*h.Traffic), "int32"))
+//@ define b2aMatches(a, h) = len(a.Matches) == len(h.Matches) && (forall m :: 0 <= m && m < len(h.Matches) ==> sameHeaders(a.Matches[m].Headers, h.Matches[m].Headers))
+//@ define b2aStep(as, hs, j) = as[j].Replicas == hs[j].Replicas && b2aTraffic(as[j], hs[j]) && as[j].Pause.Duration == hs[j].Pause.Duration && as[j].RequestHeaderModifier == hs[j].RequestHeaderModifier && b2aMatches(as[j], hs[j])
+
+// Assumption: the stored hub object has a strategy (validated at admission). A blue-green object converts to an object
+// with only its metadata (v1alpha1 cannot express it).
+//@ func (*Rollout).ConvertFrom
+//@ props C20
+//@ requires dst != nil && src.tag == typeid("*v1beta1.Rollout") && iref(src) != nil
+//@ requires admitted: hubRollout(src).Spec.Strategy.Canary != nil || hubRollout(src).Spec.Strategy.BlueGreen != nil
+//@ ensures never_fails: result == nil
+//@ ensures workload_ref: hubRollout(src).Spec.Strategy.BlueGreen == nil ==> dst.Spec.ObjectRef.WorkloadRef != nil && dst.Spec.ObjectRef.WorkloadRef.APIVersion == hubRollout(src).Spec.WorkloadRef.APIVersion && dst.Spec.ObjectRef.WorkloadRef.Kind == hubRollout(src).Spec.WorkloadRef.Kind && dst.Spec.ObjectRef.WorkloadRef.Name == hubRollout(src).Spec.WorkloadRef.Name
+//@ ensures canary_strategy: hubRollout(src).Spec.Strategy.BlueGreen == nil ==> dst.Spec.Strategy.Canary != nil && dst.Spec.Strategy.Paused == hubRollout(src).Spec.Strategy.Paused && dst.Spec.Disabled == hubRollout(src).Spec.Disabled && dst.Spec.Strategy.Canary.FailureThreshold == hubRollout(src).Spec.Strategy.Canary.FailureThreshold
+//@ ensures steps: hubRollout(src).Spec.Strategy.BlueGreen == nil ==> len(dst.Spec.Strategy.Canary.Steps) == len(hubRollout(src).Spec.Strategy.Canary.Steps) && (forall j :: 0 <= j && j < len(hubRollout(src).Spec.Strategy.Canary.Steps) ==> b2aStep(dst.Spec.Strategy.Canary.Steps, hubRollout(src).Spec.Strategy.Canary.Steps, j))
+//@ ensures routings: hubRollout(src).Spec.Strategy.BlueGreen == nil ==> len(dst.Spec.Strategy.Canary.TrafficRoutings) == len(hubRollout(src).Spec.Strategy.Canary.TrafficRoutings) && (forall j :: 0 <= j && j < len(hubRollout(src).Spec.Strategy.Canary.TrafficRoutings) ==> sameRouting(dst.Spec.Strategy.Canary.TrafficRoutings[j], hubRollout(src).Spec.Strategy.Canary.TrafficRoutings[j]))
+//@ ensures style: hubRollout(src).Spec.Strategy.BlueGreen == nil ==> dst.Annotations["rollouts.kruise.io/rolling-style"] == ite(hubRollout(src).Spec.Strategy.Canary.EnableExtraWorkloadForCanary, toLower("Canary"), toLower("Partition"))
+//@ ensures routing_ref: hubRollout(src).Spec.Strategy.BlueGreen == nil && hubRollout(src).Spec.Strategy.Canary.TrafficRoutingRef != "" ==> dst.Annotations["rollouts.kruise.io/trafficrouting"] == hubRollout(src).Spec.Strategy.Canary.TrafficRoutingRef
+//@ ensures status_cursor: hubRollout(src).Spec.Strategy.BlueGreen == nil ==> (dst.Status.CanaryStatus == nil) == (hubRollout(src).Status.CanaryStatus == nil) && (hubRollout(src).Status.CanaryStatus != nil ==> dst.Status.CanaryStatus.CurrentStepIndex == hubRollout(src).Status.CanaryStatus.CurrentStepIndex && dst.Status.CanaryStatus.NextStepIndex == hubRollout(src).Status.CanaryStatus.NextStepIndex && dst.Status.CanaryStatus.CurrentStepState == hubRollout(src).Status.CanaryStatus.CurrentStepState && dst.Status.CanaryStatus.FinalisingStep == hubRollout(src).Status.CanaryStatus.FinalisingStep && dst.Status.CanaryStatus.CanaryRevision == hubRollout(src).Status.CanaryStatus.CanaryRevision && dst.Status.CanaryStatus.StableRevision == hubRollout(src).Status.CanaryStatus.StableRevision && dst.Status.CanaryStatus.PodTemplateHash == hubRollout(src).Status.CanaryStatus.PodTemplateHash && dst.Status.CanaryStatus.ObservedRolloutID == hubRollout(src).Status.CanaryStatus.ObservedRolloutID && dst.Status.CanaryStatus.RolloutHash == hubRollout(src).Status.CanaryStatus.RolloutHash && dst.Status.CanaryStatus.CanaryReplicas == hubRollout(src).Status.CanaryStatus.CanaryReplicas && dst.Status.CanaryStatus.CanaryReadyReplicas == hubRollout(src).Status.CanaryStatus.CanaryReadyReplicas && dst.Status.CanaryStatus.ObservedWorkloadGeneration == hubRollout(src).Status.CanaryStatus.ObservedWorkloadGeneration && dst.Status.CanaryStatus.LastUpdateTime == hubRollout(src).Status.CanaryStatus.LastUpdateTime)
+//@ ensures status_top: hubRollout(src).Spec.Strategy.BlueGreen == nil ==> dst.Status.ObservedGeneration == hubRollout(src).Status.ObservedGeneration && dst.Status.Phase == hubRollout(src).Status.Phase && dst.Status.Message == hubRollout(src).Status.Message
+//@ ensures framed: unchangedOutside(dst, dst.Annotations)
+//@ loop 1 invariant framed: unchangedOutside(dst)
+//@ loop 2 invariant framed: unchangedOutside(dst)
+//@ loop 3 invariant framed: unchangedOutside(dst)
+//@ loop 4 invariant framed: unchangedOutside(dst)
+//@ loop 5 invariant framed: unchangedOutside(dst, dst.Annotations)
+//@ loop 1 invariant appended_fresh: fresh(dst.Spec.Strategy.Canary) && (cap(dst.Spec.Strategy.Canary.Steps) == 0 || fresh(dst.Spec.Strategy.Canary.Steps))
+//@ loop 2 invariant appended_fresh: fresh(dst.Spec.Strategy.Canary) && (cap(dst.Spec.Strategy.Canary.TrafficRoutings) == 0 || fresh(dst.Spec.Strategy.Canary.TrafficRoutings))
+//@ loop 5 invariant appended_fresh: cap(dst.Status.Conditions) == 0 || fresh(dst.Status.Conditions)
+//@ loop 1 invariant range: -1 <= rangeindex && rangeindex < len(srcV1beta1.Spec.Strategy.Canary.Steps) && len(dst.Spec.Strategy.Canary.Steps) == rangeindex + 1 && dst.Spec.Strategy.Canary != nil && srcV1beta1.Spec.Strategy.BlueGreen == nil && srcV1beta1.Spec.Strategy.Canary != nil
+//@ loop 1 invariant converted_replicas: forall j :: 0 <= j && j <= rangeindex ==> dst.Spec.Strategy.Canary.Steps[j].Replicas == srcV1beta1.Spec.Strategy.Canary.Steps[j].Replicas && dst.Spec.Strategy.Canary.Steps[j].Pause.Duration == srcV1beta1.Spec.Strategy.Canary.Steps[j].Pause.Duration && dst.Spec.Strategy.Canary.Steps[j].RequestHeaderModifier == srcV1beta1.Spec.Strategy.Canary.Steps[j].RequestHeaderModifier
+//@ loop 1 invariant converted_traffic: forall j :: 0 <= j && j <= rangeindex ==> b2aTraffic(dst.Spec.Strategy.Canary.Steps[j], srcV1beta1.Spec.Strategy.Canary.Steps[j])
+//@ loop 1 invariant converted_matches: forall j :: 0 <= j && j <= rangeindex ==> b2aMatches(dst.Spec.Strategy.Canary.Steps[j], srcV1beta1.Spec.Strategy.Canary.Steps[j])
+//@ loop 2 invariant range: -1 <= rangeindex$2 && rangeindex$2 < len(srcV1beta1.Spec.Strategy.Canary.TrafficRoutings) && len(dst.Spec.Strategy.Canary.TrafficRoutings) == rangeindex$2 + 1 && dst.Spec.Strategy.Canary != nil && srcV1beta1.Spec.Strategy.BlueGreen == nil && srcV1beta1.Spec.Strategy.Canary != nil
+//@ loop 2 invariant converted_scalars: forall j :: 0 <= j && j <= rangeindex$2 ==> sameRoutingScalars(dst.Spec.Strategy.Canary.TrafficRoutings[j], srcV1beta1.Spec.Strategy.Canary.TrafficRoutings[j])
+//@ loop 2 invariant converted_refs_len: forall j :: 0 <= j && j <= rangeindex$2 ==> len(dst.Spec.Strategy.Canary.TrafficRoutings[j].CustomNetworkRefs) == len(srcV1beta1.Spec.Strategy.Canary.TrafficRoutings[j].CustomNetworkRefs)
+//@ loop 2 invariant converted_refs: forall j :: 0 <= j && j <= rangeindex$2 ==> (forall k :: 0 <= k && k < len(srcV1beta1.Spec.Strategy.Canary.TrafficRoutings[j].CustomNetworkRefs) ==> dst.Spec.Strategy.Canary.TrafficRoutings[j].CustomNetworkRefs[k].APIVersion == srcV1beta1.Spec.Strategy.Canary.TrafficRoutings[j].CustomNetworkRefs[k].APIVersion && dst.Spec.Strategy.Canary.TrafficRoutings[j].CustomNetworkRefs[k].Kind == srcV1beta1.Spec.Strategy.Canary.TrafficRoutings[j].CustomNetworkRefs[k].Kind && dst.Spec.Strategy.Canary.TrafficRoutings[j].CustomNetworkRefs[k].Name == srcV1beta1.Spec.Strategy.Canary.TrafficRoutings[j].CustomNetworkRefs[k].Name)
+
+// ---------- round trip v1alpha1 -> hub -> v1alpha1 (harness; compiled only under the tag "verif") ----------
+// The harness only sequences the two real conversion methods; it is checked against their contracts (modularly), so the
+// round-trip property is a consequence of the two contracts above.
+func verifRoundTripRollout(src *Rollout, hub *v1beta1.Rollout, back *Rollout) {
+	if err := src.ConvertTo(hub); err != nil {
+		return
+	}
+	_ = back.ConvertFrom(hub)
+}
+
+//@ define rtStep(bs, ss, j) = (ss[j].Weight == nil) == (bs[j].Weight == nil) && (ss[j].Weight != nil ==> *bs[j].Weight == *ss[j].Weight) && (ss[j].Replicas != nil ==> bs[j].Replicas == ss[j].Replicas) && (ss[j].Replicas == nil && ss[j].Weight != nil ==> bs[j].Replicas != nil && bs[j].Replicas.Type == 1 && bs[j].Replicas.StrVal == pct(*ss[j].Weight)) && (ss[j].Replicas == nil && ss[j].Weight == nil ==> bs[j].Replicas == nil) && bs[j].Pause.Duration == ss[j].Pause.Duration && bs[j].RequestHeaderModifier == ss[j].RequestHeaderModifier && len(bs[j].Matches) == len(ss[j].Matches) && (forall m :: 0 <= m && m < len(ss[j].Matches) ==> sameHeaders(bs[j].Matches[m].Headers, ss[j].Matches[m].Headers))
+
+//@ func verifRoundTripRollout
+//@ props C20
+//@ requires src != nil && hub != nil && back != nil && backing(src) != backing(back)
+//@ requires admitted: src.Spec.ObjectRef.WorkloadRef != nil && src.Spec.Strategy.Canary != nil
+//@ ensures workload_ref: back.Spec.ObjectRef.WorkloadRef != nil && back.Spec.ObjectRef.WorkloadRef.APIVersion == src.Spec.ObjectRef.WorkloadRef.APIVersion && back.Spec.ObjectRef.WorkloadRef.Kind == src.Spec.ObjectRef.WorkloadRef.Kind && back.Spec.ObjectRef.WorkloadRef.Name == src.Spec.ObjectRef.WorkloadRef.Name
+//@ ensures steps_len: back.Spec.Strategy.Canary != nil && len(back.Spec.Strategy.Canary.Steps) == len(src.Spec.Strategy.Canary.Steps)
+//@ ensures steps_weight: forall j :: 0 <= j && j < len(src.Spec.Strategy.Canary.Steps) ==> (src.Spec.Strategy.Canary.Steps[j].Weight == nil) == (back.Spec.Strategy.Canary.Steps[j].Weight == nil) && (src.Spec.Strategy.Canary.Steps[j].Weight != nil ==> *back.Spec.Strategy.Canary.Steps[j].Weight == *src.Spec.Strategy.Canary.Steps[j].Weight)
+//@ ensures steps_replicas: forall j :: 0 <= j && j < len(src.Spec.Strategy.Canary.Steps) ==> (src.Spec.Strategy.Canary.Steps[j].Replicas != nil ==> back.Spec.Strategy.Canary.Steps[j].Replicas == src.Spec.Strategy.Canary.Steps[j].Replicas) && (src.Spec.Strategy.Canary.Steps[j].Replicas == nil && src.Spec.Strategy.Canary.Steps[j].Weight != nil ==> back.Spec.Strategy.Canary.Steps[j].Replicas != nil && back.Spec.Strategy.Canary.Steps[j].Replicas.Type == 1 && back.Spec.Strategy.Canary.Steps[j].Replicas.StrVal == pct(*src.Spec.Strategy.Canary.Steps[j].Weight)) && (src.Spec.Strategy.Canary.Steps[j].Replicas == nil && src.Spec.Strategy.Canary.Steps[j].Weight == nil ==> back.Spec.Strategy.Canary.Steps[j].Replicas == nil)
+//@ ensures steps_pause: forall j :: 0 <= j && j < len(src.Spec.Strategy.Canary.Steps) ==> back.Spec.Strategy.Canary.Steps[j].Pause.Duration == src.Spec.Strategy.Canary.Steps[j].Pause.Duration && back.Spec.Strategy.Canary.Steps[j].RequestHeaderModifier == src.Spec.Strategy.Canary.Steps[j].RequestHeaderModifier
+//@ ensures steps_matches: forall j :: 0 <= j && j < len(src.Spec.Strategy.Canary.Steps) ==> len(back.Spec.Strategy.Canary.Steps[j].Matches) == len(src.Spec.Strategy.Canary.Steps[j].Matches) && (forall m :: 0 <= m && m < len(src.Spec.Strategy.Canary.Steps[j].Matches) ==> sameHeaders(back.Spec.Strategy.Canary.Steps[j].Matches[m].Headers, src.Spec.Strategy.Canary.Steps[j].Matches[m].Headers))
+//@ ensures routings: len(back.Spec.Strategy.Canary.TrafficRoutings) == len(src.Spec.Strategy.Canary.TrafficRoutings) && (forall j :: 0 <= j && j < len(src.Spec.Strategy.Canary.TrafficRoutings) ==> sameRouting(back.Spec.Strategy.Canary.TrafficRoutings[j], src.Spec.Strategy.Canary.TrafficRoutings[j]))
+//@ ensures style: back.Annotations["rollouts.kruise.io/rolling-style"] == ite(toLower(old(src.Annotations["rollouts.kruise.io/rolling-style"])) != toLower("Partition"), toLower("Canary"), toLower("Partition"))
+//@ ensures status_cursor: (back.Status.CanaryStatus == nil) == (src.Status.CanaryStatus == nil) && (src.Status.CanaryStatus != nil ==> back.Status.CanaryStatus.CurrentStepIndex == src.Status.CanaryStatus.CurrentStepIndex && back.Status.CanaryStatus.NextStepIndex == src.Status.CanaryStatus.NextStepIndex && back.Status.CanaryStatus.CurrentStepState == src.Status.CanaryStatus.CurrentStepState && back.Status.CanaryStatus.FinalisingStep == src.Status.CanaryStatus.FinalisingStep)
+//@ ensures paused_disabled: back.Spec.Strategy.Paused == src.Spec.Strategy.Paused && back.Spec.Disabled == src.Spec.Disabled
+
+// ---------- BatchRelease ----------
+//@ define hubBR(d) = as(iref(d), "*v1beta1.BatchRelease")
+//@ define sameIOS(a, b) = a.Type == b.Type && a.IntVal == b.IntVal && a.StrVal == b.StrVal
+//@ define sameBRStatus(a, b) = a.Status.StableRevision == b.Status.StableRevision && a.Status.UpdateRevision == b.Status.UpdateRevision && a.Status.ObservedGeneration == b.Status.ObservedGeneration && a.Status.ObservedRolloutID == b.Status.ObservedRolloutID && a.Status.ObservedWorkloadReplicas == b.Status.ObservedWorkloadReplicas && a.Status.ObservedReleasePlanHash == b.Status.ObservedReleasePlanHash && a.Status.CollisionCount == b.Status.CollisionCount && a.Status.Phase == b.Status.Phase && a.Status.CanaryStatus.CurrentBatchState == b.Status.CanaryStatus.CurrentBatchState && a.Status.CanaryStatus.CurrentBatch == b.Status.CanaryStatus.CurrentBatch && a.Status.CanaryStatus.BatchReadyTime == b.Status.CanaryStatus.BatchReadyTime && a.Status.CanaryStatus.UpdatedReplicas == b.Status.CanaryStatus.UpdatedReplicas && a.Status.CanaryStatus.UpdatedReadyReplicas == b.Status.CanaryStatus.UpdatedReadyReplicas && a.Status.CanaryStatus.NoNeedUpdateReplicas == b.Status.CanaryStatus.NoNeedUpdateReplicas
+//@ define samePlan(a, b) = a.Spec.ReleasePlan.BatchPartition == b.Spec.ReleasePlan.BatchPartition && a.Spec.ReleasePlan.RolloutID == b.Spec.ReleasePlan.RolloutID && a.Spec.ReleasePlan.FailureThreshold == b.Spec.ReleasePlan.FailureThreshold && a.Spec.ReleasePlan.FinalizingPolicy == b.Spec.ReleasePlan.FinalizingPolicy && a.Spec.ReleasePlan.EnableExtraWorkloadForCanary == b.Spec.ReleasePlan.EnableExtraWorkloadForCanary && len(a.Spec.ReleasePlan.Batches) == len(b.Spec.ReleasePlan.Batches) && (forall j :: 0 <= j && j < len(b.Spec.ReleasePlan.Batches) ==> sameIOS(a.Spec.ReleasePlan.Batches[j].CanaryReplicas, b.Spec.ReleasePlan.Batches[j].CanaryReplicas))
+
+// Assumption as for Rollout.ConvertTo: the v1alpha1 object has a workloadRef.
+//@ func (*BatchRelease).ConvertTo
+//@ props C20
+//@ requires src != nil && dst.tag == typeid("*v1beta1.BatchRelease") && iref(dst) != nil
+//@ requires admitted: src.Spec.TargetRef.WorkloadRef != nil
+//@ ensures never_fails: result == nil
+//@ ensures workload_ref: hubBR(dst).Spec.WorkloadRef.APIVersion == src.Spec.TargetRef.WorkloadRef.APIVersion && hubBR(dst).Spec.WorkloadRef.Kind == src.Spec.TargetRef.WorkloadRef.Kind && hubBR(dst).Spec.WorkloadRef.Name == src.Spec.TargetRef.WorkloadRef.Name
+//@ ensures plan: samePlan(hubBR(dst), src)
+//@ ensures style: hubBR(dst).Spec.ReleasePlan.RollingStyle == ite(toLower(src.Annotations["rollouts.kruise.io/rolling-style"]) == toLower("BlueGreen"), "BlueGreen", ite(toLower(src.Annotations["rollouts.kruise.io/rolling-style"]) == toLower("Canary"), "Canary", ite(toLower(src.Annotations["rollouts.kruise.io/rolling-style"]) == toLower("Partition"), "Partition", "")))
+//@ ensures status: sameBRStatus(hubBR(dst), src)
+//@ ensures framed: unchangedOutside(hubBR(dst))
+//@ loop 1 invariant framed: unchangedOutside(obj)
+//@ loop 2 invariant framed: unchangedOutside(obj)
+//@ loop 3 invariant framed: unchangedOutside(obj)
+//@ loop 4 invariant framed: unchangedOutside(obj)
+//@ loop 1 invariant appended_fresh: (cap(obj.Spec.ReleasePlan.Batches) == 0 || fresh(obj.Spec.ReleasePlan.Batches)) && !fresh(srcSpec.ReleasePlan.Batches)
+//@ loop 4 invariant appended_fresh: cap(obj.Status.Conditions) == 0 || fresh(obj.Status.Conditions)
+//@ loop 1 invariant range: -1 <= rangeindex && rangeindex < len(srcSpec.ReleasePlan.Batches) && len(obj.Spec.ReleasePlan.Batches) == rangeindex + 1
+//@ loop 1 invariant source_kept: srcSpec.ReleasePlan.Batches == old(src.Spec.ReleasePlan.Batches) && (forall j :: 0 <= j && j < len(src.Spec.ReleasePlan.Batches) ==> sameIOS(src.Spec.ReleasePlan.Batches[j].CanaryReplicas, old(src.Spec.ReleasePlan.Batches[j].CanaryReplicas)))
+//@ loop 1 invariant converted: forall j :: 0 <= j && j <= rangeindex ==> sameIOS(obj.Spec.ReleasePlan.Batches[j].CanaryReplicas, old(src.Spec.ReleasePlan.Batches[j].CanaryReplicas))
+
+//@ func (*BatchRelease).ConvertFrom
+//@ props C20
+//@ requires dst != nil && src.tag == typeid("*v1beta1.BatchRelease") && iref(src) != nil
+//@ ensures never_fails: result == nil
+//@ ensures workload_ref: dst.Spec.TargetRef.WorkloadRef != nil && dst.Spec.TargetRef.WorkloadRef.APIVersion == hubBR(src).Spec.WorkloadRef.APIVersion && dst.Spec.TargetRef.WorkloadRef.Kind == hubBR(src).Spec.WorkloadRef.Kind && dst.Spec.TargetRef.WorkloadRef.Name == hubBR(src).Spec.WorkloadRef.Name
+//@ ensures plan: samePlan(dst, hubBR(src))
+//@ ensures style: dst.Annotations["rollouts.kruise.io/rolling-style"] == toLower(hubBR(src).Spec.ReleasePlan.RollingStyle) && dst.Spec.ReleasePlan.RollingStyle == hubBR(src).Spec.ReleasePlan.RollingStyle
+//@ ensures status: sameBRStatus(dst, hubBR(src))
+//@ ensures framed: unchangedOutside(dst, dst.Annotations)
+//@ loop 1 invariant framed: unchangedOutside(dst)
+//@ loop 2 invariant framed: unchangedOutside(dst)
+//@ loop 3 invariant framed: unchangedOutside(dst)
+//@ loop 4 invariant framed: unchangedOutside(dst, dst.Annotations)
+//@ loop 1 invariant appended_fresh: (cap(dst.Spec.ReleasePlan.Batches) == 0 || fresh(dst.Spec.ReleasePlan.Batches)) && !fresh(srcSpec.ReleasePlan.Batches)
+//@ loop 4 invariant appended_fresh: cap(dst.Status.Conditions) == 0 || fresh(dst.Status.Conditions)
+//@ loop 1 invariant range: -1 <= rangeindex && rangeindex < len(srcSpec.ReleasePlan.Batches) && len(dst.Spec.ReleasePlan.Batches) == rangeindex + 1
+//@ loop 1 invariant converted: forall j :: 0 <= j && j <= rangeindex ==> sameIOS(dst.Spec.ReleasePlan.Batches[j].CanaryReplicas, srcSpec.ReleasePlan.Batches[j].CanaryReplicas)
